@@ -218,6 +218,13 @@ def check(case, stats=None):
         if r is not None and r != want_sorted:
             out.append(Failure("C10:sorted", {"expected": want_sorted, "actual": r}))
         if not out and ivs:
+            # the interval set taken back from the mask (its runs, i.e. the merged intervals), sorted: genome order again
+            from bionumpy.genomic_data.genomic_intervals import GenomicIntervals
+            ft = guard("from_track(mask).sorted", lambda: rows_of(GenomicIntervals.from_track(gi.get_mask()).sorted()))
+            want_ft = [(n, a, b) for n in names for a, b in c08.merged_model([(a, b) for a, b, s in per[n]], sizes[n], 0)]
+            if ft is not None and ft != want_ft:
+                out.append(Failure("C10:from-track-sorted", {"expected": want_ft, "actual": ft}))
+        if not out and ivs:
             for d in case["distances"]:
                 m = guard(f"merged({'0' if d == 0 else '>0'})", lambda: rows_of(srt.merged(d) if d else srt.merged()))
                 want = [(n, a, b) for n in names for a, b in c08.merged_model([(a, b) for a, b, s in per[n]], sizes[n], d)]
